@@ -88,6 +88,23 @@ class StmtMixin:
             st.flow = 'return'
             st.ret = NONE
             return [st]
+        if self.contract is not None and self.contract.fresh_result and self.inline_depth == 0 \
+                and self.spec_depth == 0:
+            # ownership: a function whose result must be a NEW container may not hand out a
+            # container that an object keeps in a field (aliasing the schema's own data)
+            try:
+                pl = self.try_place(st.copy(), s.value)
+            except OutsideSubset:
+                pl = None
+            if pl is not None and len(pl) == 1 and isinstance(pl[0][1], Place):
+                root = pl[0][1].root
+                while root[0] == 'local' and isinstance(st.env.get(root[1]), Place):
+                    root = st.env[root[1]].root
+                if root[0] == 'field':
+                    self.oblige(st, False, 'ownership', 'result-is-a-new-container', node=s,
+                                carries=getattr(self.contract, 'frame_carries', None) or 'C13',
+                                info={'claim': 'the returned container is a copy, not the container stored in '
+                                               '%s.%s (mutating the result would alter the object)' % root[2]})
         out = []
         for s2, v in self.eval(st, s.value):
             if normal(s2):
@@ -159,6 +176,8 @@ class StmtMixin:
                     return None
                 s2, base = res[0]
                 if isinstance(base, SV) and isinstance(base.ty, TRef):
+                    attr_ = '_dict' if e.attr == '__dict__' else e.attr
+                    e = ast.copy_location(ast.Attribute(value=e.value, attr=attr_, ctx=e.ctx), e)
                     dcls, fty = self.classes.field(base.ty.cls, e.attr)
                     if dcls is not None and self.is_container_type(fty):
                         return [(s2, Place(('field', base.t, (dcls, e.attr))))]
